@@ -82,6 +82,8 @@ def render_attrs(attrs, d):
 
 
 def render_line(f, d=DEFAULT_GFF3):
+    if f.get("_repeat") and not d.get("repeat"):
+        d = dict(d, repeat=True)  # this line spells multi-valued attributes as repeated keys
     c = f["cols"]
     cols = [c[0], c[1], c[2], "." if c[3] is None else str(c[3]), "." if c[4] is None else str(c[4]), c[5], c[6], c[7]]
     line = "\t".join(cols) + "\t" + render_attrs(f["attrs"], d)
